@@ -1,6 +1,7 @@
 // C02 monitor: interpolation weights (exhaustive over float offsets), whole-cell shifts
 // (bit-exact), polynomial reproduction through KickMap::apply() and RotationMap::apply().
 #include "common.hpp"
+#include <limits>
 #include "SM/KickMap.hpp"
 #include "SM/RotationMap.hpp"
 
@@ -10,6 +11,15 @@ using vh::Rng;
 struct Probe : public SourceMap { using SourceMap::calcCoefficiants; };
 
 static vh::Monitor M;
+
+// (same helper as in maps.hpp, which this harness does not use) the wanted table, then one in which every third row is not representable
+// on the grid (several grid lengths, or NaN), after which the caller installs the wanted table again
+static void kick_history_through_far_offsets(KickMap& km, const std::vector<meshaxis_t>& want, uint32_t n, uint64_t salt) {
+    std::vector<meshaxis_t> a = want; km.swapOffset(a);
+    std::vector<meshaxis_t> far = want;
+    for (size_t i = salt % 3; i < far.size(); i += 3) far[i] = ((i + salt) % 2) ? std::numeric_limits<meshaxis_t>::quiet_NaN() : (meshaxis_t)(((i + salt) % 4 < 2 ? 3.0 : -2.5) * n);
+    km.swapOffset(far);
+}
 
 static const double NODES[5][4] = {{0}, {0}, {0, 1}, {-1, 0, 1}, {-1, 0, 1, 2}};
 
@@ -133,6 +143,7 @@ static void mode_shift() {
                 if (!ykick && b > 0) v = dd[k];
                 dd[(size_t)b * n + k] = v; off[(size_t)b * n + k] = (float)v;
             }
+            if (round % 3 == 1) { std::vector<float> oc = off; kick_history_through_far_offsets(km, oc, n, (uint64_t)(c + round)); M.ev("kick_maps_with_a_history_through_offsets_beyond_the_grid"); }
             km.swapOffset(off);
             std::fill(out->getData(), out->getData() + nn * nb, 123.0f);
             km.apply();
@@ -205,6 +216,7 @@ static void mode_poly() {
             off[k] = (float)o;
         }
         std::vector<float> offcopy = off;
+        if ((c / 8) % 6 == 4) { kick_history_through_far_offsets(km, offcopy, n, (uint64_t)c); M.ev("kick_maps_with_a_history_through_offsets_beyond_the_grid"); }
         km.swapOffset(off);
         km.apply();
         const float* o = out->getData();
